@@ -66,10 +66,11 @@ Expect(o) ==
          IF k < 0 THEN [kind |-> "unspec", k |-> 0]
          ELSE IF k < NEvents(o.obj) THEN [kind |-> "event", k |-> k, ev |-> Events(DocToks[o.obj])[k + 1]]
          ELSE IF k = NEvents(o.obj) \/ Terminal[o.obj] = "eof" THEN [kind |-> Terminal[o.obj], k |-> k]
-         ELSE [kind |-> "unspec", k |-> k]                                      \* reading on after an error
+         ELSE [kind |-> "error", k |-> k]                                       \* reading on after an error: the stream is over, no event comes any more
     [] o.op = "ddrain" ->                                                     \* NextLexeme until it stops delivering: the rest of the stream
          LET k == cursor[o.obj] IN
-         IF k < 0 \/ (k > NEvents(o.obj) /\ Terminal[o.obj] = "error") THEN [kind |-> "unspec", k |-> 0]
+         IF k < 0 THEN [kind |-> "unspec", k |-> 0]
+         ELSE IF k > NEvents(o.obj) /\ Terminal[o.obj] = "error" THEN [kind |-> "drain", k |-> k, evs |-> <<>>, term |-> "error"]
          ELSE [kind |-> "drain", k |-> k, evs |-> SubSeq(Events(DocToks[o.obj]), k + 1, NEvents(o.obj)), term |-> Terminal[o.obj]]
     [] o.op = "dvalidate" -> [kind |-> "fresh", k |-> 0]        \* the verdict is about the whole document, wherever its cursor stands
     [] OTHER -> [kind |-> "fresh", k |-> 0]
